@@ -21,6 +21,8 @@ CONDS = [
          'other) and symbolic min / max / value strings: returns Booleans, never both',
          'len <= 8 quick / 11 thorough over "0-9 - : T W . e + space newline"; each attribute present or absent',
          timeout={'quick': 110, 'thorough': 900}),
+    Cond('long_values_ok', 'min / max / value made of digit runs of 4 .. 6000 characters (past the 4300-digit int conversion '
+         'limit) for every range type', '6 lengths x 9 value forms x 3 attributes', timeout={'quick': 60, 'thorough': 120}),
     Cond('state_strings_ok',
          'every state pseudo-class over the forms document after injecting symbolic dir / lang / type / name / '
          'placeholder strings (all of Unicode) into one of seven elements',
